@@ -120,7 +120,9 @@ class Real:
         """netlist of a DERIVED circuit: dummy nodes / anonymous components are numbered by per-instance counters"""
         if c is None or not hasattr(c, 'netlist'):
             return 'result:' + str(c)
-        return re.sub(r'_?nodeanon\d+|anon\d+', 'anon', c.netlist())
+        t = re.sub(r'_?nodeanon\d+|anon\d+', 'anon', c.netlist())
+        # an expanded noise source carries its noise identifier, which is numbered by a per-context counter
+        return '\n'.join(re.sub(r'\bn\d+\s*$', 'n*', l) if ' noise ' in l else l for l in t.split('\n'))
 
     # ---- observations
     @staticmethod
